@@ -1373,6 +1373,12 @@ def run(prop, tier):
             "convergence of the real rule set is emergent from ~960 unmodelled analyses: the Lean theorems are the reduction (fixpoint of every scheduled rule and of the post-normalisation ⇒ fixpoint of the run; a fixpoint after one step excludes every cycle); their hypotheses are evaluated with the real analyses on each explored first output",
             "jobs whose input is rejected, whose output is rejected (C08) or whose fix run raises (C19) are not evaluated",
         ]
+        try:  # wp2c_selstable: token_indent (102 rules) — real second analysis after the real fix must be empty (one-step convergence)
+            import props_bfull2
+
+            props_bfull2.extra(res, tier, "C09")
+        except ImportError:
+            pass
     return res.finish(max(nobl, 1), ndis, "cd lean && lake build VsgProofs.Properties.%s && lake env lean <audit file with #print axioms>" % prop, thms)
 
 
